@@ -21,6 +21,8 @@ impl Rng {
 }
 
 struct Gen {
+    n: usize,
+    has_y: bool,
     text: String,
     mutation: String,
     valid: bool,
@@ -29,7 +31,7 @@ struct Gen {
 
 fn gen(r: &mut Rng) -> Gen {
     let mutate = r.below(4) != 0;
-    let kind = if mutate { 1 + r.below(24) } else { 0 };
+    let kind = if mutate { 1 + r.below(30) } else { 0 };
     let m = |k: u64| kind == k;
     let mut t = String::new();
     let entry = if m(12) { "Nope" } else { "Top" };
@@ -41,15 +43,22 @@ fn gen(r: &mut Rng) -> Gen {
     t += "  Bare:\n    gates:\n      - other\n";
     // generic type
     let gen_head = if m(15) { "G(T <- Nope)" } else if m(16) { "G(T <- I, T <- I)" } else if m(17) { "G(T <- I" } else if m(18) { "G(T < I)" } else { "G(T <- I)" };
-    t += &format!("  \"{}\":\n    submodules:\n      c: T\n    gates:\n      - up\n    connections:\n      - peers:\n          - up\n          - c/port\n", gen_head);
+    t += &format!("  \"{}\":\n{}    submodules:\n      c: {}\n    gates:\n      - up\n    connections:\n      - peers:\n          - up\n          - c/port\n", gen_head, if m(27) { "    inherit: T\n" } else { "" }, if m(25) { "\"T(L0)\"" } else { "T" });
+    if m(26) {
+        t += "  \"H(U <- I)\":\n    submodules:\n      d: \"G(U)\"\n";
+    }
+    // inheritance with connections: the child declares none of its own
+    t += "  P:\n    submodules:\n      s: L1\n    gates:\n      - pg\n    connections:\n      - peers:\n          - pg\n          - s/port\n";
+    t += "  Q:\n    inherit: P\n    gates:\n      - qg\n";
     // mid-level composite
     let n = 2 + r.below(3);
     let n2 = if m(5) { n + 1 } else { n };
     t += "  Mid:\n    submodules:\n";
     t += &format!("      \"a[{}]\": L1\n", n);
     t += &format!("      \"b[{}]\": {}\n", n2, if m(1) { "Nope" } else { "L1" });
-    t += "    gates:\n      - up\n";
+    t += &format!("    gates:\n      - up\n      - \"wide[{}]\"\n", 3 * n);
     t += "    connections:\n";
+    t += "      - peers:\n          - wide\n          - a/in\n";
     t += &format!("      - peers:\n          - a/port\n          - b/{}\n", if m(2) { "nope" } else { "port" });
     t += &format!("      - peers:\n          - up\n          - \"a[{}]/in[{}]\"\n", if m(3) { n } else { 0 }, if m(19) { 3 } else { 1 });
     if m(6) {
@@ -61,40 +70,149 @@ fn gen(r: &mut Rng) -> Gen {
     t += "      mid: Mid\n";
     t += &format!("      g: \"{}\"\n", garg);
     t += &format!("      {}: L1\n", if m(24) { "\"x]\"" } else { "x" });
-    let mut top_fields = 3;
+    t += "      q: Q\n";
+    let mut top_fields = 4;
+    if m(26) {
+        t += "      h: \"H(L0)\"\n";
+        top_fields += 1;
+    }
     if m(6) {
         t += "      cy: Cyc\n";
         top_fields += 1;
     }
-    if r.below(2) == 0 {
+    let has_y = r.below(2) == 0;
+    if has_y {
         t += "      \"y[2]\": L0\n";
         top_fields += 1;
     }
     t += "    connections:\n";
     t += &format!("      - peers:\n          - mid/up\n          - g/up\n        link: {}\n", if m(11) { "Nope" } else { "Fast" });
-    t += "      - peers:\n          - x/port\n          - \"x/in[2]\"\n";
+    t += &format!("      - peers:\n          - x/port\n          - \"{}\"\n", if m(28) { "" } else if m(29) { "/" } else if m(30) { " " } else { "x/in[2]" });
     t += "links:\n  Fast:\n    latency: 0.01\n    jitter: 0.0\n    bitrate: 100000\n";
-    Gen { text: t, mutation: if kind == 0 { "none".into() } else { format!("m{}", kind) }, valid: kind == 0, top_fields }
+    Gen { n: n as usize, has_y, text: t, mutation: if kind == 0 { "none".into() } else { format!("m{}", kind) }, valid: kind == 0, top_fields }
+}
+
+fn ep(e: &des_net_utils::ndl::tree::ConnectionEndpoint) -> String {
+    e.accessors.iter().map(|a| a.as_name()).collect::<Vec<_>>().join("/")
+}
+
+fn cons(n: &des_net_utils::ndl::tree::Node) -> Vec<String> {
+    let mut v: Vec<String> = n
+        .connections
+        .iter()
+        .map(|c| {
+            let (a, b) = (ep(&c.peers[0]), ep(&c.peers[1]));
+            let l = match &c.link {
+                Some(l) => format!(" link(latency={},jitter={},bitrate={})", l.latency, l.jitter, l.bitrate),
+                None => String::new(),
+            };
+            if a <= b { format!("{} <-> {}{}", a, b, l) } else { format!("{} <-> {}{}", b, a, l) }
+        })
+        .collect();
+    v.sort();
+    v
+}
+
+fn fields(n: &des_net_utils::ndl::tree::Node) -> Vec<String> {
+    let mut v: Vec<String> = n.submodules.iter().map(|s| format!("{}:{}", s.name, &*s.typ.typ)).collect();
+    v.sort();
+    v
+}
+
+fn gates(n: &des_net_utils::ndl::tree::Node) -> Vec<String> {
+    let mut v: Vec<String> = n.gates.iter().map(|g| g.to_string()).collect();
+    v.sort();
+    v
+}
+
+/// what the template denotes (the reference for an unmutated description)
+fn expected(n: usize, has_y: bool) -> Vec<String> {
+    let mut out = Vec::new();
+    let mut top = vec!["g:G".to_string(), "mid:Mid".to_string(), "q:Q".to_string(), "x:L1".to_string()];
+    if has_y {
+        top.push("y[2]:L0".to_string());
+    }
+    top.sort();
+    out.push(format!("Top fields {:?}", top));
+    out.push(format!("Top connections {:?}", vec!["g/up <-> mid/up link(latency=0.01,jitter=0,bitrate=100000)".to_string(), "x/in[2] <-> x/port".to_string()]));
+    let mut mc: Vec<String> = (0..n).map(|i| format!("a[{}]/port <-> b[{}]/port", i, i)).collect();
+    mc.push("a[0]/in[1] <-> up".to_string());
+    for k in 0..3 * n {
+        mc.push(format!("a[{}]/in[{}] <-> wide[{}]", k / 3, k % 3, k));
+    }
+    mc.sort();
+    out.push(format!("Mid fields {:?}", vec![format!("a[{}]:L1", n), format!("b[{}]:L1", n)]));
+    out.push(format!("Mid gates {:?}", vec!["up".to_string(), format!("wide[{}]", 3 * n)]));
+    out.push(format!("Mid connections {:?}", mc));
+    out.push(format!("G fields {:?}", vec!["c:L0".to_string()]));
+    out.push(format!("G connections {:?}", vec!["c/port <-> up".to_string()]));
+    out.push(format!("G.c gates {:?}", vec!["extra".to_string(), "port".to_string()]));
+    out.push(format!("x gates {:?}", vec!["in[3]".to_string(), "port".to_string()]));
+    out.push(format!("Q fields {:?}", vec!["s:L1".to_string()]));
+    out.push(format!("Q gates {:?}", vec!["pg".to_string(), "qg".to_string()]));
+    out.push(format!("Q connections {:?}", vec!["pg <-> s/port".to_string()]));
+    out
+}
+
+fn observed(net: &des_net_utils::ndl::tree::Node) -> Vec<String> {
+    let mut out = Vec::new();
+    out.push(format!("{} fields {:?}", &*net.typ, fields(net)));
+    out.push(format!("Top connections {:?}", cons(net)));
+    let find = |n: &des_net_utils::ndl::tree::Node, name: &str| n.submodules.iter().find(|s| s.name.ident == name).map(|s| s.typ.clone());
+    if let Some(mid) = find(net, "mid") {
+        out.push(format!("Mid fields {:?}", fields(&mid)));
+        out.push(format!("Mid gates {:?}", gates(&mid)));
+        out.push(format!("Mid connections {:?}", cons(&mid)));
+    }
+    if let Some(g) = find(net, "g") {
+        out.push(format!("G fields {:?}", fields(&g)));
+        out.push(format!("G connections {:?}", cons(&g)));
+        if let Some(c) = find(&g, "c") {
+            out.push(format!("G.c gates {:?}", gates(&c)));
+        }
+    }
+    if let Some(x) = find(net, "x") {
+        out.push(format!("x gates {:?}", gates(&x)));
+    }
+    if let Some(q) = find(net, "q") {
+        out.push(format!("Q fields {:?}", fields(&q)));
+        out.push(format!("Q gates {:?}", gates(&q)));
+        out.push(format!("Q connections {:?}", cons(&q)));
+    }
+    out
 }
 
 fn esc(s: &str) -> String {
     s.replace('\\', "\\\\").replace('"', "\\\"").replace('\n', "\\n")
 }
 
-fn run(text: &str, valid: bool, top_fields: usize) -> Result<String, (String, String, String)> {
+fn run(text: &str, valid: bool, top_fields: usize, exp: Option<Vec<String>>) -> Result<String, (String, String, String)> {
     let res = catch_unwind(AssertUnwindSafe(|| {
         let def: Def = match serde_yml::from_str(text) {
             Ok(d) => d,
             Err(e) => return Err(format!("parse error: {}", e)),
         };
         match transform(&def) {
-            Ok(net) => Ok(net.submodules.len()),
+            Ok(net) => Ok((net.submodules.len(), observed(&net))),
             Err(e) => Err(format!("elaboration error: {:?}", e)),
         }
     }));
     match res {
         Err(_) => Err(("ndl-panicked".into(), "an elaborated network or a descriptive error".into(), "panic".into())),
-        Ok(Ok(n)) => {
+        Ok(Ok((n, obs))) => {
+            if let (true, Some(exp)) = (valid, exp) {
+                for (e, o) in exp.iter().zip(obs.iter()) {
+                    if e != o {
+                        return Err(("ndl-network-differs-from-description".into(), e.clone(), o.clone()));
+                    }
+                }
+                if exp.len() != obs.len() {
+                    return Err(("ndl-network-differs-from-description".into(), format!("{} parts", exp.len()), format!("{} parts", obs.len())));
+                }
+            }
+            if !valid {
+                return Err(("ndl-invalid-description-accepted".into(), "a descriptive error".into(), format!("Ok ({} submodules)", n)));
+            }
             if valid && n != top_fields {
                 return Err(("ndl-top-level-submodules".into(), format!("{} submodules under the entry module", top_fields), format!("{}", n)));
             }
@@ -116,7 +234,14 @@ fn main() {
     let a: Vec<String> = std::env::args().collect();
     if a.len() >= 3 && a[1] == "replay" {
         let text = std::fs::read_to_string(&a[2]).unwrap();
-        match run(&text, false, 0) {
+        // an unmutated description is replayed against the network it denotes: replay <file> <n> <has_y>
+        let exp = match (a.get(3).and_then(|x| x.parse::<usize>().ok()), a.get(4)) {
+            (Some(n), Some(y)) => Some(expected(n, y == "true")),
+            _ => None,
+        };
+        let valid = exp.is_some();
+        let tf = if a.get(4).map(|y| y == "true").unwrap_or(false) { 5 } else { 4 };
+        match run(&text, valid, tf, exp) {
             Ok(o) => println!("{{\"mismatch\":false,\"outcome\":\"{}\"}}", esc(&o)),
             Err((k, e, o)) => println!("{{\"mismatch\":true,\"kind\":\"{}\",\"expected\":\"{}\",\"observed\":\"{}\"}}", k, esc(&e), esc(&o)),
         }
@@ -133,8 +258,8 @@ fn main() {
         if n == 0 {
             sample = esc(&g.text);
         }
-        if let Err((k, e, o)) = run(&g.text, g.valid, g.top_fields) {
-            let line = format!("{{\"mismatch\":true,\"kind\":\"{}\",\"props\":\"C18\",\"scenario_no\":{},\"mutation\":\"{}\",\"scenario\":{{\"ndl_text\":\"{}\"}},\"expected\":\"{}\",\"observed\":\"{}\"}}", k, n, g.mutation, esc(&g.text), esc(&e), esc(&o));
+        if let Err((k, e, o)) = run(&g.text, g.valid, g.top_fields, if g.valid { Some(expected(g.n, g.has_y)) } else { None }) {
+            let line = format!("{{\"mismatch\":true,\"kind\":\"{}\",\"props\":\"C18\",\"scenario_no\":{},\"mutation\":\"{}\",\"scenario\":{{\"n\":{},\"has_y\":{},\"ndl_text\":\"{}\"}},\"expected\":\"{}\",\"observed\":\"{}\"}}", k, n, g.mutation, g.n, g.has_y, esc(&g.text), esc(&e), esc(&o));
             if all {
                 if !seen.contains(&g.mutation) {
                     seen.push(g.mutation.clone());
